@@ -307,13 +307,19 @@ func (w *h5World) inbound(kind string, peer *net.UDPAddr, payload []byte, viaSoc
 	from := net.Addr(w.srv.addr)
 	op := "cin " + kind
 	switch kind {
-	case "dind":
+	case "dind", "dind-other":
 		m, _ := stun.Build(stun.TransactionID, stun.NewType(stun.MethodData, stun.ClassIndication), proto.PeerAddress{IP: peer.IP, Port: peer.Port}, proto.Data(payload))
 		data = m.Raw
-		op = fmt.Sprintf("cin dind %s %s", canonAddr(peer), vhHex(payload))
-	case "cdat":
+		op = fmt.Sprintf("cin %s %s %s", kind, canonAddr(peer), vhHex(payload))
+		if kind == "dind-other" { // somebody who is not the TURN server sends "relayed" data straight to the client
+			from = w.other.addr
+		}
+	case "cdat", "cdat-other":
 		data = payload // raw ChannelData
-		op = "cin cdat " + vhHex(payload)
+		op = "cin " + kind + " " + vhHex(payload)
+		if kind == "cdat-other" {
+			from = w.other.addr
+		}
 	case "req":
 		m, _ := stun.Build(stun.TransactionID, stun.BindingRequest)
 		data = m.Raw
@@ -378,6 +384,8 @@ func (w *h5World) inbound(kind string, peer *net.UDPAddr, payload []byte, viaSoc
 		res = "inerr nonstun"
 	case errors.Is(err, errChannelBindNotFound):
 		res = "inerr nochannel"
+	case strings.Contains(err.Error(), "not sent by the TURN server"):
+		res = "inerr stranger"
 	default:
 		res = "inerr decode"
 	}
@@ -467,6 +475,25 @@ func TestVerifH5(t *testing.T) {
 			})
 		}
 	}
+	// directed: the application reuses ONE address variable for two peers (as callers of net.PacketConn may): the
+	// binding of the first peer must keep naming the first peer
+	synctest.Test(t, func(t *testing.T) {
+		w := newH5World(vt)
+		vt.Op("cnew")
+		vt.Obs("ok")
+		dst := &net.UDPAddr{IP: net.ParseIP("10.0.0.9").To4(), Port: 9000}
+		w.write(dst, []byte{1}, nil, []string{"ok"})
+		w.write(dst, []byte{2}, nil, nil)
+		dst.Port = 9001 // same variable, another peer
+		w.write(dst, []byte{3}, nil, []string{"ok"})
+		cd := proto.ChannelData{Number: 0x4000, Data: []byte("from the first peer")}
+		cd.Encode()
+		w.inbound("cdat", nil, cd.Raw, false)
+		w.read()
+		dst.Port = 9000
+		w.write(dst, []byte{4}, nil, nil)
+		w.finish()
+	})
 	for h := 0; h < nh; h++ {
 		synctest.Test(t, func(t *testing.T) {
 			w := newH5World(vt)
@@ -492,7 +519,11 @@ func TestVerifH5(t *testing.T) {
 					if rng.Intn(3) == 0 && len(pl) >= 20 {
 						copy(pl[4:], []byte{0x21, 0x12, 0xA4, 0x42}) // payload that looks like a STUN header
 					}
-					w.inbound("dind", p, pl, false)
+					if rng.Intn(6) == 0 { // a Data indication that did not come from the TURN server
+						w.inbound("dind-other", p, pl, rng.Intn(3) == 0)
+					} else {
+						w.inbound("dind", p, pl, false)
+					}
 				case r < 62:
 					num := uint16(0x4000 + rng.Intn(5))
 					pl := vt.Bytes(rng.Intn(24))
@@ -501,7 +532,11 @@ func TestVerifH5(t *testing.T) {
 					}
 					cd := proto.ChannelData{Number: proto.ChannelNumber(num), Data: pl}
 					cd.Encode()
-					w.inbound("cdat", nil, cd.Raw, false)
+					if rng.Intn(6) == 0 { // the same bytes, but not from the TURN server: never relayed data
+						w.inbound("cdat-other", nil, cd.Raw, rng.Intn(3) == 0)
+					} else {
+						w.inbound("cdat", nil, cd.Raw, false)
+					}
 				case r < 70:
 					kinds := []string{"req", "bad", "other", "garbage-server", "garbage-other"}
 					w.inbound(kinds[rng.Intn(len(kinds))], nil, nil, rng.Intn(3) == 0)
